@@ -1744,4 +1744,556 @@ theorem anonBody_shape (tbl : List TemplateSig) (va : Option Expr) (m : Meta) (l
             show (match t.outputs with | [o] => _ | os => _) = _
             split <;> rfl
 
+
+def unreachableMsg (msg : String) : Bool := msg == "unreachable: anonymous component after removal"
+
+/-! the error of the tuple removal is never the `unreachable!()` of `remove_tuple_from_expression` when
+    the input contains no anonymous component -/
+mutual
+theorem rmTupE_err : ∀ (e : Expr) (err : Err), rmTupE e = .error err → hasE false e = false → unreachableMsg err.2 = false
+  | .arr m vs, err, h, _ => by
+    unfold rmTupE at h
+    split at h
+    · cases h; dsimp only; decide
+    · cases h
+  | .num m n, err, h, _ => by unfold rmTupE at h; cases h
+  | .var m n acc, err, h, _ => by
+    unfold rmTupE at h
+    split at h
+    · cases h; dsimp only; decide
+    · cases h
+  | .infix m op l r, err, h, _ => by
+    unfold rmTupE at h
+    split at h
+    · cases h; dsimp only; decide
+    · cases h
+  | .prefix m op e, err, h, _ => by
+    unfold rmTupE at h
+    split at h
+    · cases h; dsimp only; decide
+    · cases h
+  | .switch m c t f, err, h, _ => by
+    unfold rmTupE at h
+    split at h
+    · cases h; dsimp only; decide
+    · cases h
+  | .call m i args, err, h, _ => by
+    unfold rmTupE at h
+    split at h
+    · cases h; dsimp only; decide
+    · cases h
+  | .anon m _ _ _ _ _ _, err, h, ha => by simp [hasE] at ha
+  | .tuple m vs, err, h, ha => by
+    unfold rmTupE at h
+    split at h
+    · rename_i e' he
+      cases h
+      exact rmTupEs_err vs _ he (by simpa [hasE] using ha)
+    · cases h
+  | .par m e, err, h, _ => by
+    unfold rmTupE at h
+    split at h
+    · cases h; dsimp only; decide
+    · cases h
+theorem rmTupEs_err : ∀ (es : Exprs) (err : Err), rmTupEs es = .error err → hasEs false es = false → unreachableMsg err.2 = false
+  | .nil, err, h, _ => by unfold rmTupEs at h; cases h
+  | .cons e r, err, h, ha => by
+    unfold rmTupEs at h
+    simp only [hasEs, Bool.or_eq_false_iff] at ha
+    split at h
+    · rename_i e1 he
+      cases h
+      exact rmTupE_err e _ he ha.1
+    · split at h
+      · rename_i e2 hr
+        cases h
+        exact rmTupEs_err r _ hr ha.2
+      · split at h <;> cases h
+end
+
+mutual
+theorem rmTupS_err : ∀ (s : Stmt) (err : Err), rmTupS s = .error err → hasS false s = false → unreachableMsg err.2 = false
+  | .msub m l op r, err, h, ha => by
+    unfold rmTupS at h
+    simp only [hasS, Bool.or_eq_false_iff] at ha
+    split at h
+    · rename_i e1 he
+      cases h
+      exact rmTupE_err l _ he ha.1
+    · split at h
+      · rename_i e1 he
+        cases h
+        exact rmTupE_err r _ he ha.2
+      · split at h
+        · split at h
+          · split at h
+            · cases h
+            · cases h; dsimp only; decide
+          · split at h
+            · cases h; dsimp only; decide
+            · cases h; dsimp only; decide
+        · split at h
+          · cases h; dsimp only; decide
+          · cases h; dsimp only; decide
+  | .ite m c t e, err, h, ha => by
+    unfold rmTupS at h
+    simp only [hasS, Bool.or_eq_false_iff] at ha
+    split at h
+    · cases h; dsimp only; decide
+    · split at h
+      · rename_i e1 he
+        cases h
+        exact rmTupS_err t _ he ha.1.2
+      · split at h
+        · rename_i e1 he
+          cases h
+          exact rmTupO_err e _ he ha.2
+        · cases h
+  | .while_ m label c b, err, h, ha => by
+    unfold rmTupS at h
+    simp only [hasS, Bool.or_eq_false_iff] at ha
+    split at h
+    · cases h; dsimp only; decide
+    · split at h
+      · rename_i e1 he
+        cases h
+        exact rmTupS_err b _ he ha.2
+      · cases h
+  | .log m args, err, h, _ => by
+    unfold rmTupS at h
+    simp only at h
+    split at h
+    · cases h; dsimp only; decide
+    · cases h
+  | .assert m e, err, h, _ => by
+    unfold rmTupS at h
+    split at h
+    · cases h; dsimp only; decide
+    · cases h
+  | .ret m e, err, h, _ => by
+    unfold rmTupS at h
+    split at h
+    · cases h; dsimp only; decide
+    · cases h
+  | .ceq m l r, err, h, _ => by
+    unfold rmTupS at h
+    split at h
+    · cases h; dsimp only; decide
+    · cases h
+  | .decl m xt n dims, err, h, _ => by
+    unfold rmTupS at h
+    split at h
+    · cases h; dsimp only; decide
+    · cases h
+  | .init m xt is, err, h, ha => by
+    unfold rmTupS at h
+    split at h
+    · rename_i e1 he
+      cases h
+      exact rmTupSs_err is _ he (by simpa [hasS] using ha)
+    · cases h
+  | .block m ss, err, h, ha => by
+    unfold rmTupS at h
+    split at h
+    · rename_i e1 he
+      cases h
+      exact rmTupSs_err ss _ he (by simpa [hasS] using ha)
+    · cases h
+  | .sub m v acc op r, err, h, ha => by
+    unfold rmTupS at h
+    simp only [hasS, Bool.or_eq_false_iff] at ha
+    split at h
+    · rename_i e1 he
+      cases h
+      exact rmTupE_err r _ he ha.2
+    · split at h
+      · cases h; dsimp only; decide
+      · split at h
+        · cases h; dsimp only; decide
+        · split at h <;> cases h
+theorem rmTupSs_err : ∀ (ss : Stmts) (err : Err), rmTupSs ss = .error err → hasSs false ss = false → unreachableMsg err.2 = false
+  | .nil, err, h, _ => by unfold rmTupSs at h; cases h
+  | .cons s r, err, h, ha => by
+    unfold rmTupSs at h
+    simp only [hasSs, Bool.or_eq_false_iff] at ha
+    split at h
+    · rename_i e1 he
+      cases h
+      exact rmTupS_err s _ he ha.1
+    · split at h
+      · rename_i e1 he
+        cases h
+        exact rmTupSs_err r _ he ha.2
+      · cases h
+theorem rmTupO_err : ∀ (o : OptStmt) (err : Err), rmTupO o = .error err → hasO false o = false → unreachableMsg err.2 = false
+  | .none, err, h, _ => by unfold rmTupO at h; cases h
+  | .some s, err, h, ha => by
+    unfold rmTupO at h
+    split at h
+    · rename_i e1 he
+      cases h
+      exact rmTupS_err s _ he (by simpa [hasO] using ha)
+    · cases h
+end
+
+
+def declOk (d : Stmt) : Bool := isVarDecl d || isCompDecl d || isSub d
+
+theorem go_decls (m : Meta) (rs : List (Except Err AnonRes)) (idAnon : String) (acc0 : List Acc)
+    (hrs : ∀ r, r ∈ rs → ∀ res, r = .ok res → ∀ d, d ∈ res.2.1 → declOk d = true) :
+    ∀ (plan : List (String × Nat × Op)) (seq decls seq' decls' : List Stmt),
+      anonBody.go m rs idAnon acc0 plan seq decls = .ok (seq', decls') →
+      (∀ d, d ∈ decls → declOk d = true) → ∀ d, d ∈ decls' → declOk d = true := by
+  intro plan
+  induction plan with
+  | nil =>
+    intro seq decls seq' decls' h hd
+    unfold anonBody.go at h
+    cases h
+    exact hd
+  | cons p rest ih =>
+    intro seq decls seq' decls' h hd
+    obtain ⟨inp, pos, op⟩ := p
+    unfold anonBody.go at h
+    split at h
+    · cases h
+    · cases h
+    · rename_i stmts ndecls e' hget
+      split at h
+      · cases h
+      · have hmem : (Except.ok (stmts, ndecls, e') : Except Err AnonRes) ∈ rs := List.mem_of_getElem? hget
+        apply ih _ _ _ _ h
+        intro d hd'
+        rcases List.mem_append.mp hd' with hd' | hd'
+        · exact hd d hd'
+        · exact hrs _ hmem _ rfl d hd'
+
+theorem anonBody_decls (tbl : List TemplateSig) (va : Option Expr) (m : Meta) (label id : String)
+    (params : Exprs) (names : Option (List (Op × String))) (par : Bool) (n : Nat)
+    (rs : List (Except Err AnonRes)) (res : AnonRes)
+    (hrs : ∀ r, r ∈ rs → ∀ res, r = .ok res → ∀ d, d ∈ res.2.1 → declOk d = true)
+    (h : anonBody tbl va m label id params names par n rs = .ok res) : ∀ d, d ∈ res.2.1 → declOk d = true := by
+  unfold anonBody at h
+  split at h
+  · cases h
+  · simp only at h
+    split at h
+    · cases h
+    · split at h
+      · cases h
+      · rename_i plan hplan
+        split at h
+        · cases h
+        · rename_i seq decls hgo
+          cases h
+          apply go_decls m rs _ _ hrs plan _ _ seq decls hgo
+          intro d hd
+          have : d = _ := List.mem_singleton.mp hd
+          subst this
+          cases va <;> rfl
+
+mutual
+theorem rmAnonE_decls (tbl : List TemplateSig) (va : Option Expr) :
+    ∀ (e : Expr) (res : AnonRes), rmAnonE tbl va e = .ok res → ∀ d, d ∈ res.2.1 → declOk d = true
+  | .arr m vs, res, h => by
+    unfold rmAnonE at h
+    split at h
+    · cases h
+    · cases h; intro d hd; cases hd
+  | .num m n, res, h => by
+    unfold rmAnonE at h; cases h; intro d hd; cases hd
+  | .var m n acc, res, h => by
+    unfold rmAnonE at h
+    split at h
+    · cases h
+    · cases h; intro d hd; cases hd
+  | .infix m op l r, res, h => by
+    unfold rmAnonE at h
+    split at h
+    · cases h
+    · cases h; intro d hd; cases hd
+  | .prefix m op e, res, h => by
+    unfold rmAnonE at h
+    split at h
+    · cases h
+    · cases h; intro d hd; cases hd
+  | .switch m c t f, res, h => by
+    unfold rmAnonE at h
+    split at h
+    · cases h
+    · cases h; intro d hd; cases hd
+  | .call m i args, res, h => by
+    unfold rmAnonE at h
+    split at h
+    · cases h
+    · cases h; intro d hd; cases hd
+  | .anon m label i ps ss names par, res, h => by
+    unfold rmAnonE at h
+    exact anonBody_decls tbl va m label i ps names par _ _ res (rmAnonEs_decls tbl va ss) h
+  | .tuple m vs, res, h => by
+    unfold rmAnonE at h
+    split at h
+    · cases h
+    · rename_i stmts decls vals hv
+      cases h
+      exact rmAnonTuple_decls tbl va vs stmts decls vals hv
+  | .par m e, res, h => by
+    unfold rmAnonE at h
+    exact rmAnonPar_decls tbl va m e res h
+theorem rmAnonPar_decls (tbl : List TemplateSig) (va : Option Expr) (m : Meta) :
+    ∀ (e : Expr) (res : AnonRes), rmAnonPar tbl va m e = .ok res → ∀ d, d ∈ res.2.1 → declOk d = true
+  | .anon m2 label i ps ss names p0, res, h => by
+    unfold rmAnonPar at h
+    exact anonBody_decls tbl va m2 label i ps names true _ _ res (rmAnonEs_decls tbl va ss) h
+  | .call m2 i args, res, h => by
+    unfold rmAnonPar at h
+    split at h
+    · cases h
+    · cases h; intro d hd; cases hd
+  | .infix a b c d', res, h => by
+    unfold rmAnonPar at h
+    split at h
+    · cases h
+    · cases h; intro d hd; cases hd
+  | .prefix a b c, res, h => by
+    unfold rmAnonPar at h
+    split at h
+    · cases h
+    · cases h; intro d hd; cases hd
+  | .switch a b c d', res, h => by
+    unfold rmAnonPar at h
+    split at h
+    · cases h
+    · cases h; intro d hd; cases hd
+  | .var a b c, res, h => by
+    unfold rmAnonPar at h
+    split at h
+    · cases h
+    · cases h; intro d hd; cases hd
+  | .num a b, res, h => by
+    unfold rmAnonPar at h
+    split at h
+    · cases h
+    · cases h; intro d hd; cases hd
+  | .arr a b, res, h => by
+    unfold rmAnonPar at h
+    split at h
+    · cases h
+    · cases h; intro d hd; cases hd
+  | .tuple a b, res, h => by
+    unfold rmAnonPar at h
+    split at h
+    · cases h
+    · cases h; intro d hd; cases hd
+  | .par a b, res, h => by
+    unfold rmAnonPar at h
+    split at h
+    · cases h
+    · cases h; intro d hd; cases hd
+theorem rmAnonEs_decls (tbl : List TemplateSig) (va : Option Expr) :
+    ∀ (es : Exprs) (r : Except Err AnonRes), r ∈ rmAnonEs tbl va es → ∀ res, r = .ok res →
+      ∀ d, d ∈ res.2.1 → declOk d = true
+  | .nil, r, hr, _, _ => by
+    unfold rmAnonEs at hr; cases hr
+  | .cons e rest, r, hr, res, heq => by
+    unfold rmAnonEs at hr
+    rcases List.mem_cons.mp hr with hr | hr
+    · subst heq
+      exact rmAnonE_decls tbl va e res hr.symm
+    · exact rmAnonEs_decls tbl va rest r hr res heq
+theorem rmAnonTuple_decls (tbl : List TemplateSig) (va : Option Expr) :
+    ∀ (es : Exprs) (stmts decls : List Stmt) (vals : List Expr),
+      rmAnonTuple tbl va es = .ok (stmts, decls, vals) → ∀ d, d ∈ decls → declOk d = true
+  | .nil, stmts, decls, vals, h => by
+    unfold rmAnonTuple at h; cases h; intro d hd; cases hd
+  | .cons e r, stmts, decls, vals, h => by
+    unfold rmAnonTuple at h
+    split at h
+    · cases h
+    · rename_i s1 d1 e1 he
+      split at h
+      · cases h
+      · rename_i s2 d2 es2 hr
+        cases h
+        intro d hd
+        rcases List.mem_append.mp hd with hd | hd
+        · exact rmAnonE_decls tbl va e _ he d hd
+        · exact rmAnonTuple_decls tbl va r s2 d2 es2 hr d hd
+end
+
+mutual
+theorem rmAnonS_decls (tbl : List TemplateSig) :
+    ∀ (s : Stmt) (va : Option Expr) (s' : Stmt) (decls : List Stmt), rmAnonS tbl va s = .ok (s', decls) →
+      ∀ d, d ∈ decls → declOk d = true
+  | .msub m l op r, va, s', decls, h => by
+    unfold rmAnonS at h
+    split at h
+    · cases h
+    · split at h
+      · cases h
+      · rename_i stmts dd r' hr
+        have := rmAnonE_decls tbl va r _ hr
+        cases h
+        exact this
+  | .ite m c t e, va, s', decls, h => by
+    unfold rmAnonS at h
+    split at h
+    · cases h
+    · split at h
+      · cases h
+      · rename_i t' d1 ht
+        split at h
+        · cases h
+        · rename_i e' d2 he
+          have h1 := rmAnonS_decls tbl t va t' d1 ht
+          have h2 := rmAnonO_decls tbl e va e' d2 he
+          cases h
+          intro d hd
+          rcases List.mem_append.mp hd with hd | hd
+          · exact h1 d hd
+          · exact h2 d hd
+  | .while_ m label c b, va, s', decls, h => by
+    unfold rmAnonS at h
+    split at h
+    · cases h
+    · simp only at h
+      split at h
+      · cases h
+      · rename_i b' nd hb
+        have h1 := rmAnonS_decls tbl b _ b' nd hb
+        split at h
+        · cases h; intro d hd; cases hd
+        · cases h
+          intro d hd
+          rcases List.mem_append.mp hd with hd | hd
+          · rcases List.mem_cons.mp hd with hd | hd
+            · subst hd; rfl
+            · have : d = _ := List.mem_singleton.mp hd
+              subst this; rfl
+          · exact h1 d hd
+  | .log m args, va, s', decls, h => by
+    unfold rmAnonS at h
+    split at h
+    · cases h
+    · cases h; intro d hd; cases hd
+  | .assert m e, va, s', decls, h => by
+    unfold rmAnonS at h
+    split at h
+    · cases h
+    · cases h; intro d hd; cases hd
+  | .ret m e, va, s', decls, h => by
+    unfold rmAnonS at h
+    split at h
+    · cases h
+    · cases h; intro d hd; cases hd
+  | .ceq m l r, va, s', decls, h => by
+    unfold rmAnonS at h
+    split at h
+    · cases h
+    · cases h; intro d hd; cases hd
+  | .decl m xt n dims, va, s', decls, h => by
+    unfold rmAnonS at h
+    split at h
+    · cases h
+    · cases h; intro d hd; cases hd
+  | .init m xt is, va, s', decls, h => by
+    unfold rmAnonS at h
+    split at h
+    · cases h
+    · rename_i is' dd hi
+      have := rmAnonSs_decls tbl is va is' dd hi
+      cases h
+      exact this
+  | .block m ss, va, s', decls, h => by
+    unfold rmAnonS at h
+    split at h
+    · cases h
+    · rename_i ss' dd hi
+      have := rmAnonSs_decls tbl ss va ss' dd hi
+      cases h
+      exact this
+  | .sub m v acc op r, va, s', decls, h => by
+    unfold rmAnonS at h
+    split at h
+    · cases h
+    · split at h
+      · cases h
+      · rename_i stmts dd r' hr
+        have := rmAnonE_decls tbl va r _ hr
+        cases h
+        exact this
+theorem rmAnonSs_decls (tbl : List TemplateSig) :
+    ∀ (ss : Stmts) (va : Option Expr) (ss' : Stmts) (decls : List Stmt), rmAnonSs tbl va ss = .ok (ss', decls) →
+      ∀ d, d ∈ decls → declOk d = true
+  | .nil, va, ss', decls, h => by
+    unfold rmAnonSs at h; cases h; intro d hd; cases hd
+  | .cons s r, va, ss', decls, h => by
+    unfold rmAnonSs at h
+    split at h
+    · cases h
+    · rename_i s1 d1 hs
+      split at h
+      · cases h
+      · rename_i r1 d2 hr
+        have h1 := rmAnonS_decls tbl s va s1 d1 hs
+        have h2 := rmAnonSs_decls tbl r va r1 d2 hr
+        cases h
+        intro d hd
+        rcases List.mem_append.mp hd with hd | hd
+        · exact h1 d hd
+        · exact h2 d hd
+theorem rmAnonO_decls (tbl : List TemplateSig) :
+    ∀ (o : OptStmt) (va : Option Expr) (o' : OptStmt) (decls : List Stmt), rmAnonO tbl va o = .ok (o', decls) →
+      ∀ d, d ∈ decls → declOk d = true
+  | .none, va, o', decls, h => by
+    unfold rmAnonO at h; cases h; intro d hd; cases hd
+  | .some s, va, o', decls, h => by
+    unfold rmAnonO at h
+    split at h
+    · cases h
+    · rename_i s1 d1 hs
+      have h1 := rmAnonS_decls tbl s va s1 d1 hs
+      cases h
+      exact h1
+end
+
+theorem rmAnonS_block (tbl : List TemplateSig) (va : Option Expr) (m : Meta) (ss : Stmts) (s' : Stmt) (decls : List Stmt)
+    (h : rmAnonS tbl va (.block m ss) = .ok (s', decls)) : ∃ ss', s' = .block m ss' := by
+  unfold rmAnonS at h
+  split at h
+  · cases h
+  · cases h
+    exact ⟨_, rfl⟩
+
+/-- the body handed to the tuple removal by `remove_syntactic_sugar` -/
+def assembled (m : Meta) (stmts : Stmts) (decls : List Stmt) : Stmt :=
+  .block m (Stmts.ofList ([Stmt.init m .local_ (Stmts.ofList (decls.filter isVarDecl))] ++ decls.filter isSub ++
+    [Stmt.init m .component (Stmts.ofList (decls.filter isCompDecl))] ++ stmts.toList))
+
+theorem assembled_anon_free (tbl : List TemplateSig) (body : Stmt) (m : Meta) (stmts : Stmts) (decls : List Stmt)
+    (hr : rmAnonS tbl none body = .ok (.block m stmts, decls)) : hasS false (assembled m stmts decls) = false := by
+  have hva : VaOk none := fun v hv => by cases hv
+  have h1 := rmAnonS_spec tbl _ none _ decls hva hr
+  have hstm : hasSs false stmts = false := by simpa [hasS] using h1.1
+  unfold assembled
+  simp only [hasS]
+  apply (hasSs_ofList false _).mpr
+  intro s hs
+  simp only [List.append_assoc, List.mem_append, List.mem_cons, List.not_mem_nil, or_false] at hs
+  rcases hs with hs | hs | hs | hs
+  · subst hs
+    simp only [hasS]
+    exact (hasSs_ofList false _).mpr (fun d hd => h1.2 d (List.mem_filter.mp hd).1)
+  · exact h1.2 s (List.mem_filter.mp hs).1
+  · subst hs
+    simp only [hasS]
+    exact (hasSs_ofList false _).mpr (fun d hd => h1.2 d (List.mem_filter.mp hd).1)
+  · exact (hasSs_toList false stmts).mp hstm s hs
+
+/-- the tuple removal never reaches its `unreachable!()` on the output of the anonymous-component removal -/
+theorem tuple_phase_no_unreachable (tbl : List TemplateSig) (body : Stmt) (m : Meta) (stmts : Stmts) (decls : List Stmt)
+    (err : Err) (hr : rmAnonS tbl none body = .ok (.block m stmts, decls))
+    (h : rmTupS (assembled m stmts decls) = .error err) : unreachableMsg err.2 = false :=
+  rmTupS_err _ err h (assembled_anon_free tbl body m stmts decls hr)
+
 end Circomspect.Desugar
